@@ -17,6 +17,9 @@ enum OpK {
     UpdateAdmin,
     ClearAdmin,
     Migrate,
+    /// a Migrate whose migrate entry point fails after the new code id was recorded: refused for
+    /// everybody, and the old code keeps serving (seeds C01g / C03g / C12g)
+    MigrateFailing,
 }
 
 fn run(len: usize) {
@@ -43,7 +46,7 @@ fn run(len: usize) {
     let mut admin: Option<Addr> = if with_admin { Some(actors[0].clone()) } else { None };
     let mut code_now = code1;
     for step in 0..len {
-        let op = [OpK::UpdateAdmin, OpK::ClearAdmin, OpK::Migrate][choose(3)];
+        let op = [OpK::UpdateAdmin, OpK::ClearAdmin, OpK::Migrate, OpK::MigrateFailing][choose(4)];
         let who = choose(5);
         let target = [1usize, 3, 0, 4][choose(4)]; // new admin: newadmin / the contract k2 / the original admin / c itself
         let new_code = if code_now == code1 { code2 } else { code1 };
@@ -51,6 +54,7 @@ fn run(len: usize) {
             OpK::UpdateAdmin => WasmMsg::UpdateAdmin { contract_addr: c.to_string(), admin: who_addr(target).to_string() }.into(),
             OpK::ClearAdmin => WasmMsg::ClearAdmin { contract_addr: c.to_string() }.into(),
             OpK::Migrate => WasmMsg::Migrate { contract_addr: c.to_string(), new_code_id: new_code, msg: Script::new().then(Step::Mark { tag: "migrated".into() }).bin() }.into(),
+            OpK::MigrateFailing => WasmMsg::Migrate { contract_addr: c.to_string(), new_code_id: new_code, msg: Script::new().write("half", "migrated").fail("migration refused by the new code").bin() }.into(),
         };
         note(format!("step{} {:?} by {} target {}", step, op, who, target));
         let before = snapshot(&app);
@@ -71,13 +75,14 @@ fn run(len: usize) {
                 return;
             }
         };
-        let allowed = admin.as_ref() == Some(&who_addr(who));
+        let allowed = admin.as_ref() == Some(&who_addr(who)) && op != OpK::MigrateFailing;
         match (&r, allowed) {
             (Ok(_), true) => {
                 witness("allowed_ok");
                 match op {
                     OpK::UpdateAdmin => admin = Some(who_addr(target)),
                     OpK::ClearAdmin => admin = None,
+                    OpK::MigrateFailing => unreachable!(),
                     OpK::Migrate => {
                         code_now = new_code;
                         witness("migrated");
